@@ -3,12 +3,12 @@ from .common import *
 ID = "C14"
 _P = "tinyflux.point."
 FUNCTIONS = [_P + "validate_tags", _P + "validate_fields"] + [_P + "Point." + f for f in ("time.setter", "measurement.setter", "tags.setter", "fields.setter", "_validate_kwargs", "__init__", "time", "measurement", "tags", "fields")] + \
-    [TF + f for f in ("_insert_helper", "insert", "insert_multiple")]
-ASSUMED = ["tinyflux.database.TinyFlux._generate_updater"]
+    [TF + f for f in ("_insert_helper", "insert", "insert_multiple", "_generate_updater", "_generate_updater.<locals>.perform_update", "_update_helper", "update", "update_all")]
+ASSUMED = []
 STANDIN = "standins/validation.py"
 TRUSTED = TRUSTED_CORE + [
     "the Any universe of contracts/any_model.py: isinstance is an uninterpreted predicate per class name, mappings have AnyV keys/values; converting an Any value into a typed slot of a Point is only allowed under the obligation that it has the right type ('InvalidValueStored' must be unreachable)",
-    "NOT under contract in this round (bounded stand-in only): _generate_updater's validation of static update arguments and perform_update's validation of callable results (fix a40b2b8)",
+    "a callable update argument is an uninterpreted function of the point returning an arbitrary Any value; truthiness and callability of Any values are uninterpreted predicates",
     STORAGE_ASSUMED,
 ]
 ASSUMPTIONS = ["callers do not mutate dicts obtained from point.tags / point.fields behind the library's back (A-alias)"]
